@@ -6,7 +6,7 @@ mon.oracles.ridge (numpy.linalg.solve on the raw normal equations) and predict_e
 lie within 6 sigma = 6 alpha sqrt(x' A^-1 x) of x.beta for alpha in {1e-9, 1e-6, 1e-3, 0.5} (so it is centred
 on x.beta and converges to it as alpha -> 0).
 
-As built: Workload extras: arms whose first rows arrive late through single-row partial_fit, a few single batches of 140000-200000 rows (90% on one arm, scale=True in half of them). A third of the LinGreedy cases explore (epsilon 0.25 / 0.5 / bit-for-bit one of the bandit's own first uniforms): the row draws are replayed from a clone of the generator, exploring rows must be uniform numbers over the arms, every other row - the exact tie included - must be the ridge prediction.
+As built: Workload extras: arms whose first rows arrive late through single-row partial_fit, a few single batches of 140000-200000 rows (90% on one arm, scale=True in half of them). A third of the LinGreedy cases explore (epsilon 0.25 / 0.5 / bit-for-bit one of the bandit's own first uniforms): the row draws are replayed from a clone of the generator, exploring rows must be uniform numbers over the arms, every other row - the exact tie included - must be the ridge prediction. A tenth of the small-d cases use the penalty 1e-20 with contexts in units of 1e-9.
 """
 from mon import env  # noqa: F401
 import math
